@@ -13,7 +13,7 @@
 //
 // You should have received a copy of the GNU General Public License
 // along with this program.  If not, see <http://www.gnu.org/licenses/>.
-use anyhow::{bail, Result};
+use anyhow::{anyhow, bail, Result};
 use lazy_static::lazy_static;
 use regex::Regex;
 use std::fmt;
@@ -113,13 +113,23 @@ impl Revision {
     pub fn from(s: &str) -> Result<Revision> {
         match FULL_REV.captures(s) {
             Some(r) => Ok(Revision {
-                index: r.name("index").unwrap().as_str().parse::<u32>().unwrap(),
+                index: r
+                    .name("index")
+                    .unwrap()
+                    .as_str()
+                    .parse::<u32>()
+                    .map_err(|_| anyhow!("invalid_revision_string: {}", s))?,
                 digest: r.name("digest").unwrap().as_str().to_string(),
                 tail: Some(r.name("tail").unwrap().as_str().to_string()),
             }),
             None => match FIRST_REV.captures(s) {
                 Some(r) => Ok(Revision {
-                    index: r.name("index").unwrap().as_str().parse::<u32>().unwrap(),
+                    index: r
+                        .name("index")
+                        .unwrap()
+                        .as_str()
+                        .parse::<u32>()
+                        .map_err(|_| anyhow!("invalid_revision_string: {}", s))?,
                     digest: r.name("digest").unwrap().as_str().to_string(),
                     tail: None,
                 }),
